@@ -1,8 +1,20 @@
 """C05 xheap.Heap and PriorityQueue always hand out a minimum; key map stays exact (spec/heap)."""
-from common import mc, lts_replay, drive_tv
+from common import mc, mc_must_fail, lts_replay, drive_tv
+
+
+def design(ctx):
+    # D: heap array + index map with the code's percolate / RemoveAt / UpdateAt / heapify (PQ.tla): heap order,
+    #    exact index map, array denotes the key->priority map, Pop/Peek answer minimal - every history over 5 (7) keys
+    mc(ctx, "heap", "PQ", ctx.pick("mc_pq.cfg", "mc_pq7.cfg"), "PQ I-layer", coverage=False, timeout=3000)
+    if not ctx.quick():
+        mc_must_fail(ctx, "heap", "PQ", "mc_pq_noup.cfg", "RemoveAt without percolateUp", expect="HeapOrder")
+    # R: every reachable heap-array shape over 5 keys x every call, on the real queue (ties: other minima are
+    #    accepted as legal deviations)
+    lts_replay(ctx, "heap", "PQ", "lts_pqi.cfg", "pq5", depth=2, walks=ctx.pick(2000, 20000), wlen=40, budget=ctx.pick(50000, 500000))
 
 
 def run(ctx):
+    design(ctx)
     d = ctx.pick(5, 6)
     for variant in ("", "cmp"):
         # R: P-layer graphs (ties => several allowed outcomes; the walker follows the code's answer)
